@@ -413,6 +413,7 @@ func checkFlow(p flowParams, x *verifkit.Exec) []verifkit.Violation {
 	x.Obs["statuses"] = statuses
 	a.checkRecovery(x)
 	a.checkWindow()
+	a.checkUnlimitedWindow(x)
 	a.checkControl(x)
 	a.checkReconf(x)
 	a.checkApply(x)
@@ -1319,6 +1320,55 @@ func (a *analysis) checkApply(x *verifkit.Exec) {
 // unambiguous: one source, one destination, no processor, a window configured. Per run, the destination's outcomes in
 // record order feed the reference window; a tolerated rejection must reach the DLQ, a refused one must neither reach
 // the DLQ nor be acknowledged.
+// checkUnlimitedWindow: with a window size of zero every rejection is tolerated. When nothing but rejections happens (all
+// plugins answer, the DLQ accepts everything, nobody stops the pipeline), every record the DLQ confirmed is acknowledged
+// to its source and the pipeline keeps running - whatever the topology.
+func (a *analysis) checkUnlimitedWindow(x *verifkit.Exec) {
+	p := a.p
+	if p.Window != 0 || p.Thresh != 0 || p.Stop != "" || len(p.Ctl) > 0 || len(p.Apply) > 0 || len(p.Reconf) > 0 || p.Faults || len(p.ReadMenu) > 0 ||
+		len(p.Blocked) > 0 || p.GateDestOpen || p.GateDLQOpen || len(p.GateSrcOpen) > 0 || p.SrcPositions != "" || len(p.FailDispense) > 0 || x.StepCapHit || len(x.W.Pending()) > 0 {
+		return
+	}
+	for _, m := range append(append([]string{}, p.AckMenu...), p.DLQMenu...) {
+		if m != "ok" && m != "nack" && !strings.HasPrefix(m, "n:") {
+			return
+		}
+	}
+	for _, m := range p.DLQMenu {
+		if m != "ok" {
+			return
+		}
+	}
+	for _, pr := range p.Procs {
+		for _, k := range pr.Kinds {
+			if k != "p" && k != "e" && k != "f" && k != "" {
+				return
+			}
+		}
+	}
+	final := ""
+	dlqAcked := map[recKey]int{}
+	srcAcked := map[recKey]bool{}
+	for _, e := range a.evs {
+		switch {
+		case e.Comp == "end" && e.Kind == "status":
+			final = strings.SplitN(e.Arg, "|", 2)[0]
+		case e.Comp == "dlq" && e.Kind == "ack" && final == "":
+			dlqAcked[recKey{strings.SplitN(e.Arg, "|", 2)[0], e.Idx}] = e.Seq
+		case isSource(e.Comp) && e.Kind == "ack" && final == "":
+			srcAcked[recKey{e.Comp, e.Idx}] = true
+		}
+	}
+	if final != "" && final != "Running" {
+		a.bad("C07/pipeline-stopped-although-every-rejection-is-tolerated/"+p.Engine, "the nack window is unlimited (size 0), every plugin and the DLQ answered, nobody stopped the pipeline, yet it ended %s", final)
+	}
+	for k, seq := range dlqAcked {
+		if !srcAcked[k] && final == "Running" {
+			a.bad("C07/dead-lettered-record-not-acknowledged/"+p.Engine, "record %d of %s was confirmed by the DLQ (event #%d) but never acknowledged to its source although the pipeline kept running", k.idx, k.src, seq)
+		}
+	}
+}
+
 func (a *analysis) checkWindow() {
 	p := a.p
 	if p.Window <= 0 || p.Sources != 1 || p.Dests != 1 || len(p.Procs) > 0 || p.Batch != 1 {
